@@ -5,6 +5,7 @@ mod graphs;
 mod hooks;
 mod market;
 mod register_h;
+mod wo_register_h;
 mod spawnrt;
 mod testers;
 
@@ -28,6 +29,7 @@ fn main() {
             arg(&args, "--seed").and_then(|s| s.parse().ok()).unwrap_or(1),
         ),
         "register" => register_h::main_register(&inp, &out),
+        "wo_register" => wo_register_h::main_wo_register(&inp, &out),
         "spawn" => spawnrt::main_spawn(&inp, &out),
         "idaddr" => spawnrt::main_idaddr(
             &out,
